@@ -444,8 +444,8 @@ impl Check for C19 {
     }
     fn lanes(&self, tier: Tier) -> Vec<(&'static str, usize, usize)> {
         match tier {
-            Tier::Quick => vec![("miniscript", 40_000, 300), ("descriptor", 15_000, 300), ("policy", 30_000, 200)],
-            Tier::Thorough => vec![("miniscript", 4_000_000, 400), ("descriptor", 1_500_000, 400), ("policy", 3_000_000, 300)],
+            Tier::Quick => vec![("miniscript", 1_200_000, 300), ("descriptor", 450_000, 300), ("policy", 900_000, 200)],
+            Tier::Thorough => vec![("miniscript", 24_000_000, 400), ("descriptor", 9_000_000, 400), ("policy", 18_000_000, 300)],
         }
     }
     fn run_case(&self, lane: &str, src: &mut Src, rep: &mut Report) -> Result<(), Failure> {
